@@ -17,6 +17,7 @@ func TestMain(m *testing.M) {
 	vh.Rule("rapid: operation sequences (3..40 ops) in the library's two usages of PacketQueue, each compared step by step with a flat []byte model. rx: AddPacket (bodies 0..3x the packet body, occasionally empty), Bytes(n) incl. n beyond the available bytes, all typed reads, String, Read(p), Position/SetPosition to a position saved since the last discard, DiscardUntilCurrentPosition, Reset, AllPacketsConsumed/IsEOM. tx: WriteBytes/Write/typed writes with a packet-size function changing between writes (9..600), Position after every step against the layout model 'each packet is created with the size current at creation and filled completely before the next is opened', discard, reset, rewind-and-read-back of written bytes. exhaustive: all sequences of <=5 (quick) / <=6 (thorough) operations from a 9-letter (rx) and 7-letter (tx) alphabet over packet sizes 9..10 with 1-3 byte payloads. Non-trivial: a read or write crossed a packet boundary, or a failed read was followed by restore/discard; distinct by the operation sequence")
 	vh.Assume("byte order of typed reads/writes is the library's announced little endian; writes into the middle of existing data and reads past the write frontier inside a padded tx packet are not generated (no caller does either); a saved position is only restored before the next discard (documented as volatile)")
 	vh.Rule("also: three queues (two receive sides, one transmit side) used in turns by a generated schedule; slices handed out by Bytes keep their content over later operations")
+	vh.Rule("also: the caller treats slices returned by Bytes as its own memory (changes every byte, appends to them): later reads, also after a restore, still return the enqueued bytes")
 	vh.Main(m, "C15")
 }
 
